@@ -31,7 +31,8 @@ fn main() {
             let ext: Vec<String> = opt.get("ext").map(|s| s.split(',').filter(|x| !x.is_empty()).map(|x| x.to_string()).collect()).unwrap_or_default();
             let gc_off = opt.get("gc-off").map(|s| s == "1").unwrap_or(false);
             let rich = opt.get("rich").map(|s| s == "1").unwrap_or(false);
-            match yx::yata::random(&opt["out-sched"], &opt["out"], seed, nb, ops, &ext, gc_off, rich) {
+            let from: usize = opt.get("from").and_then(|s| s.parse().ok()).unwrap_or(0);
+            match yx::yata::random_from(&opt["out-sched"], &opt["out"], seed, from, nb, ops, &ext, gc_off, rich) {
                 Ok((nb, nev)) => println!("{{\"behaviours\": {}, \"events\": {}}}", nb, nev),
                 Err(e) => {
                     eprintln!("yx: {}", e);
